@@ -106,6 +106,9 @@ type Run struct {
 	SubInfo   map[any]*Wrap // same-type substitutes made by a Substituter -> their description
 	Stalled   bool
 	ops       []app.SettingOption
+	// Looked records what every successful user lookup returned (name -> objects in order of arrival)
+	lookedMu sync.Mutex
+	Looked   map[string][]any
 }
 
 // Tagger is the harness-supplied definition scanner: it supplies the tag of every slot per
@@ -335,6 +338,14 @@ func (r *Run) UserLookup(name string) (any, error) {
 	r.Log.Add("lookup", name)
 	r.Tracer.Mark("user-lookup", "call", name)
 	v, err := r.App.GetComponentByName(name)
+	if err == nil && v != nil {
+		r.lookedMu.Lock()
+		if r.Looked == nil {
+			r.Looked = map[string][]any{}
+		}
+		r.Looked[name] = append(r.Looked[name], v)
+		r.lookedMu.Unlock()
+	}
 	r.Tracer.Mark("user-lookup", "ret", name)
 	r.Log.Add("lookup-end", name)
 	return v, err
